@@ -157,7 +157,7 @@ TEXTS = [
 
 def gen(rng, tier):
     cases = []
-    n = 260 if tier == "quick" else 3000
+    n = 260 if tier == "quick" else 12000
     import json as _json
     for i in range(n):
         while True:
